@@ -182,6 +182,14 @@ class Checkers(Suite):
         res["bif0"] = bool(is_bifurcate((ids, pids), exclude_root=False))
         if not case.get("anyids"):
             res["cyclic"] = bool(has_cyclic((ids, pids)))
+        # the deprecated spellings answer the same
+        import warnings as _w
+        from swcgeom.core.swc_utils import checker as _ck
+
+        with _w.catch_warnings():
+            _w.simplefilter("ignore")
+            res["aliases_same"] = bool(_ck.check_single_root(df) == res["single_root"] and _ck.is_binary_tree(df) == res["bif1"]
+                                       and _ck.is_binary_tree(df, exclude_root=False) == res["bif0"])
         return res
 
     def lines(self, case, res):
@@ -209,6 +217,8 @@ class Checkers(Suite):
             out.append(("single-root", f"ids={ids} pids={pids}: is_single_root={res['single_root']} but the table has {nc} connected component(s)"))
         if "cyclic" in res and res["cyclic"] != has_cycle(n, pp):
             out.append(("has-cyclic", f"pids={pids}: has_cyclic={res['cyclic']}, truth {has_cycle(n, pp)}"))
+        if res.get("aliases_same") is False:
+            out.append(("checker-alias", f"ids={ids} pids={pids}: check_single_root / is_binary_tree differ from is_single_root / is_bifurcate"))
         truth_sorted = all(p < i for i, p in zip(ids, pids))
         if res["sorted"] != truth_sorted:
             out.append(("is-sorted", f"ids={ids} pids={pids}: is_sorted={res['sorted']}, truth {truth_sorted}"))
